@@ -36,22 +36,38 @@ EXPECTED_PROBES = {
     "thorough": ["nan_present_compared", "policy_switch_without_reset", "all_but_one", "multitask_partial_task", "zero_nan_equals_ignore"],
 }
 TOL = 1e-6
+# kernel-specific prediction strategies / added loss terms: no dense closed form of what the library computes, so the
+# reference is the REAL model (same recipe and state) constructed on the data with the NaN observations deleted
+APPROX = ("sgpr", "kissgp")
 
 
 def generate(rng, tier, index):
     thorough = tier == "thorough"
-    fam = rng.choice(["default", "default", "multitask"])
+    fam = rng.choice(["default", "default", "default", "multitask", "multitask", "sgpr", "rff", "kissgp"])
     recipe = zoo.gen_exact_recipe(rng, [fam])
+    recipe.pop("late_data", None)
+    recipe.pop("one_d", None)
+    if fam == "kissgp":
+        recipe["grid_bounds"] = [[-0.3, 1.3]] * recipe["d"]
+    if fam == "rff":
+        recipe["rff_lazy"] = False
+    approx = fam in APPROX
     recipe["lik"] = "gaussian" if (fam != "default" or rng.random() < 0.75) else rng.choice(["fixed", "fixed_learn"])
     recipe.pop("active_dims", None)
     if fam == "default":
         recipe["batch"] = rng.choice([[], [], [2]])
-    else:
+    elif fam == "multitask":
         recipe["batch"] = rng.choice([[], [], [2]])  # batched Kronecker multitask models too
-    recipe["n"] = rng.randint(3, 7) if fam == "default" else rng.randint(3, 4)
+    else:
+        recipe["batch"] = []
+    recipe["n"] = rng.randint(3, 7) if fam in ("default", "rff") else (rng.randint(5, 8) if approx else rng.randint(3, 4))
     max_len = rng.randint(3, 10) if not thorough else rng.randint(4, 30)
     rate_mode = rng.choice(["none", "low", "high", "all_but_one", "mixed"])
     allow = {"fast_pred_var", "detach_test_caches", "max_eager_kernel_size", "lazily_evaluate_kernels", "skip_posterior_variances"}
+    if approx:
+        # the reference is the real model on the deleted data: randomised LOVE caches of two different training sets are
+        # not comparable, and SGPR needs lazily evaluated kernels
+        allow = {"detach_test_caches", "skip_posterior_variances"}
     if rng.random() < 0.5:
         allow = set(rng.sample(sorted(allow), rng.randint(0, 2)))
 
@@ -320,9 +336,17 @@ def execute(history):
                     for q in sorted(obs):
                         out.log.add("obs%d:%s" % (i, q), obs[q])
                     skip_var = bundles.has(b, "skip_posterior_variances", state=True)
-                    ref, cond = reference_posterior(M, recipe, y, xs, policy)
+                    if fam in APPROX:
+                        ref, cond = reference_real_deletion(out, M, recipe, y, xs, b, op["seed"]), 1.0
+                        if ref is None:
+                            sketch.append(tag + "?")
+                            continue
+                    else:
+                        ref, cond = reference_posterior(M, recipe, y, xs, policy)
                     # two algorithms for one linear system differ by ~cond*eps: widen with the conditioning of K_oo + S_oo
                     tol = TOL * max(1.0, cond / 1e4)
+                    if fam in APPROX:
+                        tol = 1e-4 if fam == "kissgp" else 1e-5
                     guard_ok = True
                     if cond > 1e9:
                         out.stats["probe:ill_conditioned_skipped"] += 1
@@ -351,7 +375,15 @@ def execute(history):
                                 # narrow classification for known finding F5: is it exactly the covariance obtained by
                                 # conditioning on *all* training locations (the policy ignored by the covariance path)?
                                 unmasked = False
-                                if q in ("covar", "variance") and nans:
+                                if q in ("covar", "variance") and nans and fam in APPROX:
+                                    if ref_all is None:
+                                        with torch.no_grad(), bundles.entered(b):
+                                            Fa = zoo.fresh_exact(recipe, dict(zoo.exact_state(M), targets=torch.zeros_like(y)))
+                                            Fa.eval()
+                                            ref_all = compare.observe_dist(Fa(xs))
+                                    ok2, diff2, scale2 = compare.tensor_diff(a, ref_all[q].reshape(a.shape))
+                                    unmasked = bool(ok2 and diff2 <= tol * scale2)
+                                elif q in ("covar", "variance") and nans:
                                     if ref_all is None:
                                         ref_all, _ = reference_posterior(M, recipe, torch.zeros_like(y), xs, policy)
                                     ra = ref_all[q].reshape(a.shape) if ref_all[q].numel() == a.numel() else ref_all[q]
@@ -379,6 +411,10 @@ def execute(history):
                             out.stats["probe:zero_nan_equals_ignore"] += 1
                             if bad:
                                 out.violate("policy_changes_nan_free_result", i, "%s under policy %s on NaN-free targets differs from policy ignore by %.3g" % (bad[0][0], policy, bad[0][1]), quantity=bad[0][0], **cls)
+            elif k in ("elp", "log_marginal") and fam in APPROX:
+                # likelihood-only terms: nothing kernel-specific in them (covered by the dense families)
+                out.stats["skipped:likelihood_terms_for_approximate_family"] += 1
+                tag = "skipped"
             elif k in ("mll", "elp", "log_marginal"):
                 policy = op["policy"]
                 res = objective(out, i, M, recipe, y, k, policy, MLL)
@@ -396,6 +432,30 @@ def execute(history):
         cm.__exit__(None, None, None)
         m_c20.reset_globals()
     return out
+
+
+def deleted_model(M, recipe, y):
+    o = ~torch.isnan(y)
+    state = zoo.exact_state(M)
+    state["inputs"] = tuple(t[o] for t in M.train_inputs)
+    state["targets"] = y[o]
+    if state.get("fixed_noise") is not None:
+        state["fixed_noise"] = state["fixed_noise"][o]
+    return zoo.fresh_exact(recipe, state), int(o.sum())
+
+
+def reference_real_deletion(out, M, recipe, y, xs, bundle, seed):
+    """Unbatched single-output models: what the same model class predicts when the NaN observations are deleted."""
+    try:
+        D, n_obs = deleted_model(M, recipe, y)
+        D.eval()
+        D.likelihood.eval()
+        torch.manual_seed(seed)
+        with torch.no_grad(), bundles.entered(bundle):
+            return compare.observe_dist(D(xs))
+    except Exception as e:  # noqa
+        out.stats["probe:real_deletion_reference_unavailable_" + type(e).__name__] += 1
+        return None
 
 
 def oracle_guard(out, M, recipe, y, xs, ref, tol=TOL):
@@ -481,6 +541,23 @@ def objective(out, i, M, recipe, y, kind, policy, MLL=None):
             var = (Kb + Sb).diagonal().clamp_min(1e-8)
             terms = -0.5 * ((yb - m) ** 2 / var + var.log() + math.log(2 * math.pi))
             refs.append((terms, o))
+    if kind == "mll" and fam in APPROX:
+        # added loss terms (SGPR) / structured solves: N * masked MLL must equal n_obs * MLL of the real model on the deleted data
+        try:
+            D, n_obs = deleted_model(M, recipe, y)
+            D.train()
+            D.likelihood.train()
+            with torch.no_grad():
+                want = gpytorch.mlls.ExactMarginalLogLikelihood(D.likelihood, D)(D(*D.train_inputs), D.train_targets) * n_obs
+        except Exception as e:  # noqa
+            out.stats["probe:real_deletion_reference_unavailable_" + type(e).__name__] += 1
+            return False
+        ok, diff, scale = compare.tensor_diff(val.reshape(-1) * N, want.reshape(-1))
+        if not ok or not diff <= TOL * scale:
+            out.violate("objective_vs_deletion", i, "N * masked MLL differs from n_obs * MLL of the same model on the deleted data by %.3g (scale %.3g) with %d NaN targets" % (diff, scale, nans), **cls)
+        else:
+            out.note_diff("objective", diff / scale)
+        return True
     if kind == "mll":
         # no added loss terms in this zoo: the MLL is [log N(y_o) + log-priors] / N and the deletion answer is the same
         # bracket / |o|: "rescaled by the count of observed values"
